@@ -525,10 +525,9 @@ struct MidxCase {
     rot: u8,
 }
 const MIDX_NAMES: [&str; 3] = ["pack-a.idx", "pack-b.idx", "pack-c.idx"];
-const MIDX_UNIVERSE: usize = 6;
 
 fn eval_midx(c: &MidxCase) -> Verdict {
-    let u = universe(MIDX_UNIVERSE);
+    let u = universe(c.assign.len());
     let mut per: [Vec<Entry>; 3] = Default::default();
     for (i, (&a, id)) in c.assign.iter().zip(&u).enumerate() {
         let off = OFFSETS_V2[(i + c.rot as usize) % OFFSETS_V2.len()];
@@ -549,8 +548,8 @@ fn eval_midx(c: &MidxCase) -> Verdict {
     let mut paths: Vec<PathBuf> = Vec::new();
     let mut used: Vec<usize> = Vec::new();
     for (k, e) in per.iter_mut().enumerate() {
-        // index c is also written when empty if anything else exists (an index without objects is legal)
-        if e.is_empty() && !(k == 2 && c.rot % 2 == 1) {
+        // for half of the assignments index c is also written when it is empty (an index without objects is legal)
+        if e.is_empty() && !(k == 2 && c.assign.iter().map(|&a| u32::from(a)).sum::<u32>() % 2 == 1) {
             continue;
         }
         e.sort();
@@ -841,8 +840,8 @@ pub fn run(run: &'static Run) {
          x offset rotation (id i gets OFFSETS[(i+rot)%len], OFFSETS v2 = {{12, 2^31-1, 2^31, 2^32-1, 2^32+5, 2^63-1}}, v1 = the four 32-bit ones; quick: v1 rotations 0 and 2) x {{canonical, reversed}} 64-bit table order (quick: reversed only for rotation 2); \
          queries: every universe id + 5 never-present ids, full lookup and every prefix length 4..=40 with and without candidate range; oracle = linear scan over the written entry list; \
          for canonical v2 files gitoxide's encoder (hook H3) must emit byte-identical output to the independent writer; \
-         midx-gix: all 5^6 assignments of 6 ids to {{absent, a, b, c, a+b duplicate}} x rotation 3 (quick) / 0..5 (thorough), written by write_from_index_paths, read by gitoxide and by an independent parser; \
-         git-idx: subsets (size<=2, all, all-but-one) of ~13 searched blobs in buckets 00/ff/7f/80 and with shared 4/5-digit prefixes, index by git index-pack as v2, v1, v2 with forced 64-bit table (all / upper half); \
+         midx-gix: all assignments of 5 ids x rotation 2 (quick: 5^5) / 6 ids x rotations 0..5 (thorough: 6*5^6) to {{absent, a, b, c, a+b duplicate}}, written by write_from_index_paths, read by gitoxide and by an independent parser; \
+         git-idx: subsets (size 1, all, all-but-one; thorough also size 2) of ~13 searched blobs in buckets 00/ff/7f/80 and with shared 4/5-digit prefixes, index by git index-pack as v2, v1, v2 with forced 64-bit table (all / upper half); \
          git-midx: those blobs spread over 1..3 packs incl. a duplicate, git multi-pack-index write; \
          non-trivial = non-empty file whose every observable matched the linear scan"
     ));
@@ -889,8 +888,9 @@ pub fn run(run: &'static Run) {
     run.sub(
         "midx-gix",
         |emit| {
-            let rots: &[u8] = if run.quick() { &[3] } else { &[0, 1, 2, 3, 4, 5] };
-            vkit::enumerate::seqs(&[0u8, 1, 2, 3, 4], MIDX_UNIVERSE, MIDX_UNIVERSE, |a| {
+            let rots: &[u8] = if run.quick() { &[2] } else { &[0, 1, 2, 3, 4, 5] };
+            let n_ids = run.pick(5, 6);
+            vkit::enumerate::seqs(&[0u8, 1, 2, 3, 4], n_ids, n_ids, |a| {
                 for &rot in rots {
                     emit(MidxCase { assign: a.to_vec(), rot });
                 }
@@ -910,16 +910,13 @@ pub fn run(run: &'static Run) {
         |emit| {
             let all: Vec<usize> = (0..n).collect();
             let mut sets: Vec<Vec<usize>> = Vec::new();
-            vkit::enumerate::subsets(&all, 1, 2, |s| sets.push(s.to_vec()));
+            vkit::enumerate::subsets(&all, 1, run.pick(1, 2), |s| sets.push(s.to_vec()));
             sets.push(all.clone());
             for skip in 0..n {
                 sets.push(all.iter().copied().filter(|&i| i != skip).collect());
             }
             for members in sets {
                 for variant in ["v2", "v1", "v2-all64", "v2-some64"] {
-                    if run.quick() && members.len() == 2 && variant != "v2" && variant != "v2-all64" {
-                        continue;
-                    }
                     emit(GitIdxCase { members: members.clone(), variant: variant.into() });
                 }
             }
